@@ -3,6 +3,7 @@ package nbs
 import (
 	"bytes"
 	"context"
+	"errors"
 )
 
 // verifJournalPrefix writes, with the real record writers, the part of a journal that was flushed and fsynced before
@@ -100,7 +101,12 @@ func verifH_C03_torn_commit() {
 	verifPanicIsViolation()
 	verifUnwind(256)
 	pre, cc, root := verifJournalPrefix(1, "acked")
-	fl, _, root2 := verifJournalPrefix(1, "inflight")
+	// the in-flight commit has constant field values: what is decided here is framing at every cut point, and the
+	// scan for later valid records walks over these bytes position by position (symbolic bytes there would let the
+	// uninterpreted checksum "accidentally" validate a window at every position)
+	fl := verifJournalConcrete(5)
+	var root2 [20]byte
+	copy(root2[:], fl[len(fl)-journalRecChecksumSz-20:])
 	cut := verifNondetInt("cut")
 	verifAssume(0 <= cut)
 	verifAssume(cut <= len(fl))
@@ -127,5 +133,59 @@ func verifH_C03_torn_commit() {
 	}
 	verifCover(cut == len(fl), "complete")
 	verifCover(cut > 0 && cut < len(fl), "torn")
+	verifReach("end")
+}
+
+// verifJournalConcrete writes one commit (chunk record + root record) with the real writers from CONSTANT field values
+// (all field bytes >= 0x80, so that no 4-byte window inside a field reads as a plausible record length): used for the
+// part of a journal BEHIND a damaged spot, which possibleDataLossCheck scans byte by byte.
+func verifJournalConcrete(seed byte) []byte {
+	var h, r [20]byte
+	for i := range h {
+		h[i] = 0x80 | (seed + byte(i))
+		r[i] = 0xc0 | (seed + byte(3*i))
+	}
+	cc := CompressedChunk{H: h, FullCompressedChunk: []byte{0x90 | seed}}
+	journalRecordTimestampGenerator = func() uint64 { return 0x8182838485868788 }
+	l, _ := chunkRecordSize(cc)
+	buf := make([]byte, int(l)+rootHashRecordSize())
+	n := writeChunkRecord(buf, cc)
+	writeRootHashRecord(buf[n:], r)
+	return buf
+}
+
+// H-C03-damage-then-valid: damage in the middle of the journal that is FOLLOWED by later valid records (a root hash
+// record and one more record) must be reported as possible data loss, never silently truncated: the open must not
+// succeed at an older root. Journal = acknowledged commit 1 (chunk + root, symbolic) | chunk record of commit 2 with
+// ONE body byte changed (any position behind the length word, any value) | root record of commit 2 | chunk record of
+// commit 3 (commits 2 and 3 with constant field values). Ideal checksum (one changed byte is always detected by CRC-32).
+func verifH_C03_damage_then_valid() {
+	verifPanicIsViolation()
+	verifIdealChecksums()
+	verifUnwind(512)
+	pre, cc, root := verifJournalPrefix(1, "acked")
+	second := verifJournalConcrete(1)
+	third := verifJournalConcrete(2)
+	chunkLen := len(pre) - rootHashRecordSize()
+	thirdChunk := third[:len(third)-rootHashRecordSize()]
+	pos := verifNondetInt("pos")
+	verifAssume(journalRecLenSz <= pos)
+	verifAssume(pos < chunkLen) // inside the chunk record of the second commit, behind its length word
+	pos = verifConcrete(pos, 128)
+	b := verifNondetU8("byte")
+	verifAssume(b != second[pos])
+	file := make([]byte, 0, len(pre)+len(second)+len(thirdChunk))
+	file = append(file, pre...)
+	file = append(file, second...)
+	file = append(file, thirdChunk...)
+	file[len(pre)+pos] = b
+
+	seen := &verifSeen{}
+	off, err := processJournalRecords(context.Background(), "journal", bytes.NewReader(file), false, 0, seen.cb(cc, root, chunkLen), nil)
+	verifObserve("err-nil", verifIteU64(err == nil, 1, 0))
+	verifAssert(err != nil, "damage-before-valid-records-is-not-silently-truncated")
+	verifAssert(errors.Is(err, ErrJournalDataLoss), "reported-as-data-loss")
+	verifAssert(seen.roots <= 1, "no-root-behind-the-damage-delivered")
+	_ = off
 	verifReach("end")
 }
